@@ -266,7 +266,10 @@ V_C05_AtMostOnce ==
 (* successors are created exactly once: no two tasks of one node hang off    *)
 (* the same predecessor, unless back/cancel re-created the step              *)
 V_C05_NoDupSuccessor ==
-  UNION { { V("C05_NoDupSuccessor", pid, u, {}) :
+  UNION { { V("C05_NoDupSuccessor", pid, u,
+              \* (a step re-created by `back` to an enclosing step runs beside the old instance:
+              \* both reach the end of the step and start its successor)
+              {k \in {"KF_back_enclosing"} : KF_back_enclosing_p(pid)}) :
               u \in { x \in TaskKeys(pid) :
                        \E v \in TaskKeys(pid) :
                          /\ x # v /\ x[1] = v[1] /\ TS(pid, x).prev = TS(pid, v).prev
@@ -292,7 +295,10 @@ C05_LiveProcess == [][C05_LiveProcessStep]_vars
 (* the root's error is the process's error                                    *)
 V_C06_Propagates ==
   IF ~Quiescent THEN {}
-  ELSE UNION { { V("C06_Propagates", pid, t, {}) :
+  ELSE UNION { { V("C06_Propagates", pid, t,
+                     \* (the process has failed but another branch runs on: a second, different
+                     \* error climbs ancestors that already carry the first one)
+                     {k \in {"KF_alive_after_error"} : KF_alive_after_error(pid)}) :
                    t \in { x \in TaskKeys(pid) :
                             /\ TS(pid, x).st = "error"
                             /\ LET p == ParentOf(P(pid), x)  e == TS(pid, x).err IN
@@ -364,7 +370,11 @@ V_C08_AtMostOne ==
               \cup {k \in {"KF_step_timeout_review"} : FiredStepRule(pid, t) /\ TS(pid, t).mcre <= 1}
               \* (the flow has finished past a step re-created by `back` to an enclosing step; what
               \* the re-created step then does ends its finished ancestors a second time)
-              \cup {k \in {"KF_back_enclosing"} : KF_back_enclosing_anc(pid, t) /\ TS(pid, t).mcre <= 1})
+              \cup {k \in {"KF_back_enclosing"} : KF_back_enclosing_anc(pid, t) /\ TS(pid, t).mcre <= 1}
+              \* (the process has failed but another branch runs on: its later error or abort ends
+              \* the failed ancestors a second time)
+              \cup {k \in {"KF_alive_after_error"} :
+                      KF_alive_after_error(pid) /\ TS(pid, t).mcre <= 1 /\ ND(pid, t).kind # "act"})
             : t \in { x \in TaskKeys(pid) : TS(pid, x).mcre > 1 \/ TS(pid, x).mterm > 1 } }
           : pid \in LivePids }
 
